@@ -4,6 +4,7 @@ import (
 	"context"
 	"fmt"
 	"os"
+	"runtime"
 	"sort"
 	"strconv"
 	"strings"
@@ -71,6 +72,7 @@ type run struct {
 	issuedTo     map[string]string      // task (lowest op) -> that worker
 	released     bool                   // calls suspended by a hold continued in the segment being judged: events cannot be attributed to the primary op alone
 	justReleased map[string]delayedSync // delayed Synchronize calls that reached the scheduler in the segment being judged
+	selHeld      bool                   // an Execute call is parked inside Select (hold=3); only another Execute may follow
 	termSeen     map[string]bool        // workers observed with the terminating mark (C05.terminating_monotone)
 	holdThis     bool                   // the op being applied keeps woken-up workers suspended before they re-take the scheduler lock
 	pending      *failure               // a model/implementation disagreement that does not stop the history: a violation found later in the same history takes precedence (see finish)
@@ -419,6 +421,7 @@ func (r *run) apply(line string) {
 	w.an.sel, w.an.bg, w.an.retry, w.an.dur = 0, -1, false, 0
 	r.holdThis = false
 	w.delayNext = false
+	w.slowSelectNext = false
 	var stick []time.Duration // regpq only: worker invocation stickiness limits (seconds); not part of the Sched model
 	for _, f := range kv {
 		p := strings.SplitN(f, "=", 2)
@@ -440,7 +443,8 @@ func (r *run) apply(line string) {
 		case "retry":
 			w.an.retry = p[1] == "1"
 		case "hold": // monitor-only histories: see fakeClock.hold
-			r.holdThis = (p[1] == "1" || p[1] == "2") && r.noModel
+			r.holdThis = (p[1] == "1" || p[1] == "2" || p[1] == "3") && r.noModel
+			w.slowSelectNext = p[1] == "3" && r.noModel && args[1] == "exec"
 			w.delayNext = p[1] == "2" && r.noModel && args[1] == "sync"
 		}
 	}
@@ -462,6 +466,15 @@ func (r *run) apply(line string) {
 	}
 	now := w.clk.now
 	a := args[2:]
+	if r.selHeld && args[1] != "exec" {
+		// nothing but another Execute is run against a scheduler whose lock is held by a selection
+		r.selHeld = false
+		w.clk.release()
+		r.window(fmt.Sprintf("touch %d", now), an)
+		if r.fail != nil || r.tie {
+			return
+		}
+	}
 	if r.holdThis {
 		w.clk.hold()
 	}
@@ -504,7 +517,31 @@ func (r *run) apply(line string) {
 		// the digest determines the action, hence do_not_cache and the platform
 		d := atoi(a[1])
 		dnc, plat := d >= 4, d%2
+		if r.selHeld {
+			// another Execute is inside Select (with the scheduler lock, if the code is as it should be):
+			// this call can only get as far as the lock.  Let it run up to there (it reads the clock right
+			// before taking the lock) and a little further, then end the hold.
+			before := w.clk.reads.Load()
+			w.startExecute(c, d, dnc, ints(a[2]), plat, a[3], atoi(a[4]))
+			for i := 0; i < 200000 && w.clk.reads.Load() == before; i++ {
+				runtime.Gosched()
+			}
+			for i := 0; i < 5000; i++ {
+				runtime.Gosched()
+			}
+			r.selHeld = false
+			w.clk.release()
+			r.window(fmt.Sprintf("exec %d %d %d %d %s %s %d %s %s", now, c, d, w.dkey(a[2], d), b01(dnc), a[2], plat, a[3], a[4]), an)
+			return
+		}
+		slow := w.slowSelectNext
 		w.startExecute(c, d, dnc, ints(a[2]), plat, a[3], atoi(a[4]))
+		if slow {
+			// no segment is judged while the selection is in progress: the scheduler lock is held
+			synctest.Wait()
+			r.selHeld = true
+			return
+		}
 		r.window(fmt.Sprintf("exec %d %d %d %d %s %s %d %s %s", now, c, d, w.dkey(a[2], d), b01(dnc), a[2], plat, a[3], a[4]), an)
 	case "wait": // c name
 		c := atoi(a[0])
